@@ -299,6 +299,18 @@ fn minimise(sc: &Scenario, oracle: &str, known: &[KnownFinding]) -> (Scenario, O
                     c.transport = Transport::default();
                     cands.push(Scenario { id: best.id, body: Body::C19(c) });
                 }
+                if !b.prelude.is_empty() {
+                    let mut c = b.clone();
+                    c.prelude.clear();
+                    cands.push(Scenario { id: best.id, body: Body::C19(c) });
+                    if b.prelude.len() > 1 {
+                        for i in 0..b.prelude.len() {
+                            let mut c = b.clone();
+                            c.prelude.remove(i);
+                            cands.push(Scenario { id: best.id, body: Body::C19(c) });
+                        }
+                    }
+                }
             }
         }
         for c in cands {
@@ -563,7 +575,7 @@ pub fn check_c19(tier: Tier) -> i32 {
         property: "C19",
         tier,
         level: "exploration",
-        rule: "scenario = (simulated PTP network recipe: one of 6 topologies, tape-decided attributes, clocks up to +-10 s apart; one of its distinct BMCA-tick snapshots; optional field edits; tape-decided transport chunking). \
+        rule: "scenario = (simulated PTP network recipe: one of 6 topologies, tape-decided attributes, clocks up to +-10 s apart; one of its distinct BMCA-tick snapshots; optional field edits; tape-decided transport chunking; for a quarter of the scenarios one or two earlier connections to the same exporter that went wrong - C20's client and observation-socket behaviours - while the instance was in another snapshot's state). \
                Every 4th scenario serves the state exactly as reached; the others cycle systematically through all time-properties combinations and all port-state x delay-mechanism combinations, or draw offsets/delays (0..+-10 s, incl. >64-bit fixed-point patterns), path trace lists (0..128), qualities and priorities from the tape. \
                A scenario is non-trivial when the exporter answered 200, the body parsed and every series was compared with the live data sets; distinct = distinct instance states (hash of the Debug rendering of the ObservableInstanceState served)."
             .into(),
